@@ -108,6 +108,7 @@ type fileCtx struct {
 	constructor                     map[string]bool              // functions that build the struct with a composite literal
 	sname                           string                       // emitted struct name (tag/strct)
 	inlinedClosures                 map[string]bool
+	spawnSites                      map[string][]string // function -> functions containing the go statement starting it
 	savedUnstructured, savedMayLeak []string
 	plain                           map[string]string // package-level function name -> qualified name
 }
@@ -129,13 +130,14 @@ func main() {
 	b.WriteString("(* GENERATED by tools/lockfacts from " + repo + " — do not edit *)\n")
 	b.WriteString("From Coq Require Import List String.\nFrom Verif Require Import Model.Lock.\nImport ListNotations.\nLocal Open Scope string_scope.\n\n")
 
-	var guardsDeclared, guardsInferred, inferable [][2]string
+	var guardsDeclared, guardsInferred, inferable, owners [][2]string
 	var allFuncs []namedIR
 	var entries []string
 	var escapes [][2]string
 	var callbacks []string
 	var fetchers []string
 	var covered []string
+	var skeletons []string
 	for _, sp := range specs {
 		fc := load(repo, sp)
 		if fc == nil {
@@ -167,6 +169,14 @@ func main() {
 			} else {
 				problem("%s: fetcher %s not found", sp.file, q)
 			}
+		}
+		if sp.strct == "Announce" { // the functions Model/Announcer*.v transcribes: their control skeleton
+			for name, fd := range fc.funcs {
+				if fc.primary[fd] && fd.Recv != nil && recvType(fd.Recv.List[0].Type) == "Announce" {
+					skeletons = append(skeletons, fmt.Sprintf("(%q, %s)", name, skeletonOf(fd)))
+				}
+			}
+			sort.Strings(skeletons)
 		}
 		irs, names := fc.translateAll()
 		for _, name := range names {
@@ -204,24 +214,63 @@ func main() {
 				}
 			}
 		}
+		isExported := func(n string) bool {
+			base := n[strings.LastIndex(n, ".")+1:]
+			return base != "" && base[0] >= 'A' && base[0] <= 'Z'
+		}
+		var specEntries []string
+		for _, n := range names {
+			if interesting[n] && (strings.Contains(n, "$") || isExported(n) || fc.spawned[n] || fc.valueUsed[n] || !called[n]) {
+				specEntries = append(specEntries, n)
+			}
+		}
+		// OWNER facts: a guarded field all of whose writes (calls inlined) are made by ONE entry point
+		// that is an unexported function started by exactly one `go` statement, located in a
+		// constructor of the struct, and neither called nor used as a value anywhere: one such
+		// goroutine exists per object.  It may read the field without the mutex (owner rule).
+		ownerToken := map[string]string{}
+		for g := range fc.guarded {
+			field := fc.q(g)
+			var writers []string
+			for _, e := range specEntries {
+				for _, i := range inlineIR(irs, e, 8) {
+					if (i.op == "WrW" || i.op == "WrE") && i.arg == field {
+						writers = append(writers, e)
+						break
+					}
+				}
+			}
+			if len(writers) != 1 {
+				continue
+			}
+			e := writers[0]
+			sites := fc.spawnSites[e]
+			if isExported(e) || strings.Contains(e, "$") || called[e] || fc.valueUsed[e] || len(sites) != 1 || !fc.constructor[sites[0]] {
+				continue
+			}
+			ownerToken[e] = "owner:" + e
+			owners = append(owners, [2]string{field, "owner:" + e})
+		}
 		for _, n := range names {
 			if !interesting[n] {
 				continue
 			}
 			var ir []instr
+			if t := ownerToken[n]; t != "" {
+				ir = append(ir, instr{"Acq", t})
+			}
 			for _, i := range irs[n] {
 				if i.op == "Call" && !interesting[i.arg] && !crossCall(i.arg) {
 					continue
 				}
 				ir = append(ir, i)
 			}
-			allFuncs = append(allFuncs, namedIR{n, ir})
-			base := n[strings.LastIndex(n, ".")+1:]
-			exported := base != "" && base[0] >= 'A' && base[0] <= 'Z'
-			if strings.Contains(n, "$") || exported || fc.spawned[n] || fc.valueUsed[n] || !called[n] {
-				entries = append(entries, n)
+			if t := ownerToken[n]; t != "" {
+				ir = append(ir, instr{"Rel", t})
 			}
+			allFuncs = append(allFuncs, namedIR{n, ir})
 		}
+		entries = append(entries, specEntries...)
 	}
 	sort.Strings(callbacks)
 	sort.Slice(escapes, func(i, j int) bool { return escapes[i][0]+escapes[i][1] < escapes[j][0]+escapes[j][1] })
@@ -235,6 +284,9 @@ func main() {
 	b.WriteString("(* guard map, INFERRED part: field written under the struct's mutex by some non-constructor function *)\n")
 	b.WriteString("Definition guards_inferred : list (string * string) := " + pairListNL(guardsInferred) + ".\n")
 	b.WriteString("Definition guards : list (string * string) := (guards_declared ++ guards_inferred)%list.\n")
+	sort.Slice(owners, func(i, j int) bool { return owners[i][0] < owners[j][0] })
+	b.WriteString("(* OWNER facts (field, token): every write of the field is made by the one goroutine started once per object *)\n")
+	b.WriteString("Definition owners : list (string * string) := " + pairList(owners) + ".\n")
 	b.WriteString("(* (mutex, field) for every field the inference rule yields, declared ones included *)\n")
 	b.WriteString("Definition inferable : list (string * string) := " + pairList(inferable) + ".\n")
 	b.WriteString("\nDefinition funcs : list (string * list instr) := [\n")
@@ -268,6 +320,8 @@ func main() {
 	b.WriteString("Definition fetchers : list (string * string * list string) := [" + strings.Join(fetchers, "; ") + "].\n")
 	b.WriteString("(* program, fetcher method it hands to the status reconcilers *)\n")
 	b.WriteString("Definition fetchers_wired : list (string * string) := " + pairList(wiredFetchers(repo)) + ".\n")
+	b.WriteString("(* control skeleton of the announcer's methods: (a return outside every loop?, per loop in source\n   order (nesting depth, contains return, contains break of the loop, contains continue of the loop)) *)\n")
+	b.WriteString("Definition skeletons : list (string * (bool * list (nat * bool * bool * bool))) := [\n  " + strings.Join(skeletons, ";\n  ") + "\n].\n")
 	b.WriteString("(* function, guarded field it hands out by reference *)\n")
 	b.WriteString("Definition escapes : list (string * string) := " + pairList(escapes) + ".\n")
 	if err := os.MkdirAll(filepath.Dir(out), 0o755); err != nil {
@@ -323,6 +377,7 @@ func (fc *fileCtx) translateAll() (map[string][]instr, []string) {
 		unstructured, mayLeak = fc.savedUnstructured, fc.savedMayLeak
 		fc.anon = nil
 		fc.spawned, fc.valueUsed = map[string]bool{}, map[string]bool{}
+		fc.spawnSites = map[string][]string{}
 		fc.chanBind = map[string]map[string]string{}
 		fc.nonBlocking = map[*ast.SendStmt]bool{}
 		irs = map[string][]instr{}
@@ -1072,6 +1127,7 @@ func (w *walker) stmts(list []ast.Stmt, top bool, defers *[][]instr) []instr {
 				w.closure(fl, "go")
 			} else if g := w.callee(s.Call.Fun); g != "" {
 				fc.spawned[g] = true
+				fc.spawnSites[g] = append(fc.spawnSites[g], w.name)
 				w.bindChanArgs(g, s.Call)
 			}
 		case *ast.BlockStmt:
@@ -1452,4 +1508,79 @@ func bindingSites(repo string) bool {
 		return isParam
 	})
 	return a && b && c
+}
+
+// skeletonOf: which loops a function has and how they are left.  Robust against refactorings
+// that keep the loops and their exits (hoisted locals, reordered bookkeeping, merged ifs);
+// `continue` turned into `return`, a dropped early return or a new loop change it.
+func skeletonOf(fd *ast.FuncDecl) string {
+	type loop struct {
+		depth          int
+		ret, brk, cont bool
+	}
+	var loops []*loop
+	topReturn := false
+	var walk func(n ast.Node, stack []*loop, breakable []bool)
+	walk = func(n ast.Node, stack []*loop, breakable []bool) {
+		ast.Inspect(n, func(x ast.Node) bool {
+			if x == nil || x == n {
+				return true
+			}
+			switch t := x.(type) {
+			case *ast.FuncLit:
+				return false
+			case *ast.ForStmt, *ast.RangeStmt:
+				l := &loop{depth: len(stack) + 1}
+				loops = append(loops, l)
+				var body *ast.BlockStmt
+				if f, ok := t.(*ast.ForStmt); ok {
+					body = f.Body
+				} else {
+					body = t.(*ast.RangeStmt).Body
+				}
+				walk(body, append(append([]*loop{}, stack...), l), append(append([]bool{}, breakable...), true))
+				return false
+			case *ast.SwitchStmt, *ast.TypeSwitchStmt, *ast.SelectStmt:
+				var body *ast.BlockStmt
+				switch u := t.(type) {
+				case *ast.SwitchStmt:
+					body = u.Body
+				case *ast.TypeSwitchStmt:
+					body = u.Body
+				case *ast.SelectStmt:
+					body = u.Body
+				}
+				walk(body, stack, append(append([]bool{}, breakable...), false))
+				return false
+			case *ast.ReturnStmt:
+				if len(stack) == 0 {
+					topReturn = true
+				}
+				for _, l := range stack {
+					l.ret = true
+				}
+			case *ast.BranchStmt:
+				if len(stack) == 0 {
+					return true
+				}
+				switch t.Tok {
+				case token.CONTINUE:
+					stack[len(stack)-1].cont = true
+				case token.BREAK:
+					if t.Label != nil || (len(breakable) > 0 && breakable[len(breakable)-1]) {
+						stack[len(stack)-1].brk = true
+					}
+				case token.GOTO:
+					stack[len(stack)-1].brk = true
+				}
+			}
+			return true
+		})
+	}
+	walk(fd.Body, nil, nil)
+	var items []string
+	for _, l := range loops {
+		items = append(items, fmt.Sprintf("(%d, %v, %v, %v)", l.depth, l.ret, l.brk, l.cont))
+	}
+	return fmt.Sprintf("(%v, [%s])", topReturn, strings.Join(items, "; "))
 }
